@@ -207,6 +207,69 @@ def isgood_oracle(case) -> Info:
 _isgood = st.tuples(_bytes, st.sampled_from(["good", "good", "flip", "flip", "swap", "bigendian-value", "raw"]), st.integers(0, 10**6))
 
 
+# --- call histories: the entry points are stateless functions of the bytes passed at call time ------------------------------------
+
+_hist_op = st.one_of(
+    st.tuples(st.just("new"), st.binary(min_size=0, max_size=40), st.booleans()),
+    st.tuples(st.just("mutate"), st.integers(0, 3), st.integers(0, 63), st.integers(0, 255)),
+    st.tuples(st.just("mutate"), st.integers(0, 3), st.integers(0, 63), st.integers(0, 255)),
+    st.tuples(st.just("append"), st.integers(0, 3), st.binary(min_size=1, max_size=4)),
+    st.tuples(st.just("compute"), st.integers(0, 3), st.integers(0, 63), st.integers(0, 63)),
+    st.tuples(st.just("compute"), st.integers(0, 3), st.integers(0, 63), st.integers(0, 63)),
+    st.tuples(st.just("compute-same"), st.integers(0, 3)),
+    st.tuples(st.just("incremental"), st.integers(0, 3)),
+)
+history_st = st.tuples(st.binary(min_size=1, max_size=40), st.lists(_hist_op, min_size=2, max_size=14)).map(lambda t: [("new", t[0], True), ("compute", 0, 0, len(t[0]))] + list(t[1]))
+
+
+def history_oracle(ops) -> Info:
+    """Buffers (bytes or bytearray, the latter mutated in place between calls) and interleaved calls of compute_checksum /
+    the incremental object: every result must equal the reference for the buffer content at the time of the call."""
+    bufs = []
+    last_window = {}
+    mutated_then_computed = False
+    dirty = set()
+    for step, op in enumerate(ops):
+        kind = op[0]
+        if kind == "new":
+            bufs.append(bytearray(op[1]) if op[2] else bytes(op[1]))
+            continue
+        if not bufs:
+            continue
+        i = op[1] % len(bufs)
+        b = bufs[i]
+        if kind == "mutate":
+            if isinstance(b, bytearray) and len(b):
+                b[op[2] % len(b)] = op[3]
+                dirty.add(i)
+        elif kind == "append":
+            if isinstance(b, bytearray):
+                b.extend(op[2])
+                dirty.add(i)
+        elif kind in ("compute", "compute-same"):
+            if kind == "compute-same" and i in last_window:
+                start, length = last_window[i]
+                start = min(start, len(b))
+                length = min(length, len(b) - start)
+            else:
+                start = op[2] % (len(b) + 1) if kind == "compute" else 0
+                length = (op[3] % (len(b) - start + 1)) if kind == "compute" else len(b)
+            last_window[i] = (start, length)
+            got = guarded(FCS.compute_checksum, b, start, length, what="compute_checksum")
+            want = fcs16(bytes(b[start : start + length]))
+            if got != want:
+                fail(f"step {step}: compute_checksum({type(b).__name__} {bytes(b).hex()}, {start}, {length}) = {got:#06x}, reference {want:#06x}; history {ops[: step + 1]!r}", sig="history-window")
+            if i in dirty:
+                mutated_then_computed = True
+        elif kind == "incremental":
+            obj = FCS()
+            for o in b:
+                obj.update(o)
+            if obj.checksum != fcs16(bytes(b)):
+                fail(f"step {step}: incremental checksum of {bytes(b).hex()} = {obj.checksum:#06x}, reference {fcs16(bytes(b)):#06x}", sig="history-incremental")
+    return Info(nontrivial=mutated_then_computed, classes=("mutated-buffer-recomputed" if mutated_then_computed else "no-mutation",))
+
+
 def build() -> Check:
     return Check(
         pid="C03",
@@ -217,7 +280,9 @@ def build() -> Check:
             "byte strings by induction). residue: all 2^16 registers x {correct trailer, 16 one-bit-wrong trailers, swapped octets}; "
             "uniq: seeded registers x all 65 536 trailers (exactly one accepted). windows/isgood: Hypothesis byte strings (0..600 octets) "
             "x start/length windows and trailer variants; non-trivial = window length >= 3 and not the whole string / message >= 3 octets; "
-            "distinct by case hash."
+            "distinct by case hash. call-histories: operation lists over up to 4 buffers (bytes or bytearray; mutate in place, append, "
+            "compute a window, recompute the same window, incremental) - every result must match the reference for the content at call "
+            "time; non-trivial = a window computed after the buffer was mutated."
         ),
         assumptions=[
             "The reference is the bit-serial RFC 1662 algorithm in vlib/ref_fcs.py (no table).",
@@ -231,5 +296,6 @@ def build() -> Check:
             EnumClause("uniq", size=lambda t: 48 if t == "quick" else 1024, case_at=lambda i, t: (_uniq_registers(t)[i], 0, 0), oracle=good_oracle, batch=uniq_batch, doc="all trailers for seeded registers", exhaustive=False),
             HypClause("windows", _windows, window_oracle, quick=20000, thorough=1000000),
             HypClause("isgood", _isgood, isgood_oracle, quick=20000, thorough=1000000),
+            HypClause("call-histories", history_st, lambda ops: history_oracle([tuple(o) for o in ops]), quick=10000, thorough=300000, doc="interleaved calls on bytes / in-place mutated bytearray buffers: no state may leak between calls"),
         ],
     )
